@@ -38,7 +38,7 @@ DefsFor(name) ==
                                  \cup {Def("R", 0, <<>>, t) : t \in TagNames \ {name}}
                                  \cup {Def("S", 81, <<>>, t) : t \in TagNames \ {name}}
            [] Menu = "files" -> {Def("P", 80, <<>>, ""), Def("D", 2, <<>>, "")}
-           [] Menu = "conv"  -> {Def("P", 80, <<>>, ""), Def("L", 2, <<>>, ""), Def("D", 2, <<>>, "")}
+           [] Menu = "conv"  -> {Def("P", 80, <<>>, ""), Def("L", 2, <<>>, ""), Def("D", 2, <<>>, ""), Def("C", 0, <<>>, "")}
 BadDefsFor(name) ==      \* definitions that make a call invalid
     {Def("X", 0, <<>>, ""), Def("R", 0, <<>>, name), Def("R", 0, <<>>, "tag/ghost")}
     \cup (IF IsMarkName(name) THEN {Def("P", 80, <<>>, "")} ELSE {})
@@ -119,7 +119,7 @@ Step(e) ==
       [] e.a = "ConvDone"      -> (\E p \in AnyP : ConvDone(p)) /\ Free
       [] e.a = "AddTag"        -> /\ e.def \in DefsFor(e.name) \cup BadDefsFor(e.name)
                                   /\ Call(AddTagOK(e.name, e.def), \E p \in AnyP : AddTag(e.name, e.def, "", p))
-      [] e.a = "DelTag"        -> Call(DelTagOK(e.name), DelTag(e.name))
+      [] e.a = "DelTag"        -> Call(DelTagOK(e.name), \E p \in AnyP : DelTag(e.name, p))
       [] e.a = "UpdQuery"      -> /\ e.def \in DefsFor(e.name) \cup BadDefsFor(e.name)
                                   /\ e.name \in DOMAIN tags => e.def # tags[e.name].def
                                   /\ Call(UpdQueryOK(e.name, e.def), \E p \in AnyP : UpdQuery(e.name, e.def, p))
@@ -143,9 +143,9 @@ Step(e) ==
       [] e.a = "AddEndpoint"   -> Call(AddEndpointOK(e.what), AddEndpoint(e.what))
       [] e.a = "DelEndpoint"   -> Call(DelEndpointOK(e.what), DelEndpoint(e.what))
       [] e.a = "SetConfig"     -> Budget /\ settings.cfg # (e.k = 1) /\ SetConfig(e.k = 1) /\ Spend
-      [] e.a = "SetConverters" -> Call(SetConvOK(e.name, Range(e.convs)), SetConverters(e.name, Range(e.convs)))
-      [] e.a = "ConvReset"     -> Budget /\ ConvReset(e.convs[1]) /\ Spend
-      [] e.a = "ConvRemove"    -> Budget /\ ConvRemove(e.convs[1]) /\ Spend
+      [] e.a = "SetConverters" -> Call(SetConvOK(e.name, Range(e.convs)), \E p \in AnyP : SetConverters(e.name, Range(e.convs), p))
+      [] e.a = "ConvReset"     -> Budget /\ (\E p \in AnyP : ConvReset(e.convs[1], p)) /\ Spend
+      [] e.a = "ConvRemove"    -> Budget /\ (\E p \in AnyP : ConvRemove(e.convs[1], p)) /\ Spend
       [] e.a = "ConvAdd"       -> Budget /\ ConvAdd(e.convs[1]) /\ Spend
       [] e.a = "ViewConvert"   -> Budget /\ ViewConvert(e.v, e.k, e.convs[1]) /\ Spend
 
